@@ -16,6 +16,9 @@ use stun_rs::{MessageMethod, TransactionId};
 
 pub type Id = [u8; 12];
 
+/// replay mode: keep whole buffers in the step trace
+pub static FULL_TRACE: std::sync::atomic::AtomicBool = std::sync::atomic::AtomicBool::new(false);
+
 pub const M_C05: u32 = 1 << 0;
 pub const M_C06: u32 = 1 << 1;
 pub const M_C11: u32 = 1 << 2;
@@ -23,6 +26,10 @@ pub const M_C12: u32 = 1 << 3;
 pub const M_C15: u32 = 1 << 4;
 pub const M_C17: u32 = 1 << 5;
 pub const M_C03: u32 = 1 << 6;
+pub const M_C07: u32 = 1 << 8;
+pub const M_C08: u32 = 1 << 9;
+pub const M_C10: u32 = 1 << 10;
+pub const M_C13: u32 = 1 << 11;
 
 #[derive(Clone, Debug, PartialEq, Eq)]
 pub enum Mech {
@@ -81,7 +88,13 @@ pub enum Ev {
 impl Ev {
     pub fn brief(&self) -> String {
         match self {
-            Ev::Output { id, bytes } => format!("Output({}, {}b)", short_id(id), bytes.len()),
+            Ev::Output { id, bytes } => {
+                if FULL_TRACE.load(std::sync::atomic::Ordering::Relaxed) {
+                    format!("Output({}, {})", short_id(id), crate::json::hex(bytes))
+                } else {
+                    format!("Output({}, {}b)", short_id(id), bytes.len())
+                }
+            }
             Ev::Rto { id, ns } => format!("Rto({}, {}ns)", short_id(id), ns),
             Ev::Retry { id } => format!("Retry({})", short_id(id)),
             Ev::Failed { id, reason } => format!("Failed({}, {:?})", short_id(id), reason),
@@ -298,7 +311,7 @@ impl Sim {
 
     pub fn witness(&self) -> J {
         let n = self.trace.len();
-        let start = n.saturating_sub(60);
+        let start = if FULL_TRACE.load(std::sync::atomic::Ordering::Relaxed) { 0 } else { n.saturating_sub(60) };
         J::obj()
             .set("config", J::s(self.cfg.describe()))
             .set("steps_total", J::u(self.nsteps))
@@ -339,7 +352,7 @@ impl Sim {
         let op = match &step.op {
             Op::SendRequest { method, app, buf_len } => format!("send_request(method={:#x}, app=[{}], buf={})", method, app, buf_len),
             Op::SendIndication { method, buf_len } => format!("send_indication(method={:#x}, buf={})", method, buf_len),
-            Op::Recv { what, bytes } => format!("on_buffer_recv({}: {})", what, hex_trunc(bytes, 48)),
+            Op::Recv { what, bytes } => format!("on_buffer_recv({}: {})", what, hex_trunc(bytes, if FULL_TRACE.load(std::sync::atomic::Ordering::Relaxed) { 100_000 } else { 48 })),
             Op::Timeout { why } => format!("on_timeout({})", why),
         };
         let res = match &step.result {
@@ -712,7 +725,7 @@ impl Sim {
                     self.viol(ctx, M_C12, "c12:request-accepted-at-limit", format!("send_request accepted although {} requests are unfinished (limit {})", count_before, limit));
                 }
                 if self.index.contains_key(&id) || self.indication_ids.contains(&id) {
-                    self.viol(ctx, M_C05, "c05:transaction-id-reused", format!("transaction id {} was used before", short_id(&id)));
+                    self.viol(ctx, M_C05 | M_C13, "c05:transaction-id-reused", format!("transaction id {} was used before", short_id(&id)));
                 }
                 // C15 reference: staleness then RTO in force
                 if self.cfg.reliable.is_none() {
@@ -1024,7 +1037,7 @@ impl Sim {
             if n >= 1 {
                 let same = outs[&id].iter().all(|b| *b == self.txs[i].first_bytes);
                 if !same {
-                    self.viol(ctx, M_C06, "c06:retransmission-bytes-differ", format!("retransmission of {} is not byte-identical to the first transmission", short_id(&id)));
+                    self.viol(ctx, M_C06 | M_C13, "c06:retransmission-bytes-differ", format!("retransmission of {} is not byte-identical to the first transmission", short_id(&id)));
                 }
                 self.txs[i].transmissions += n as u32;
                 ctx.count("c06.retransmissions");
